@@ -1255,6 +1255,25 @@ run_case(Ctx& ctx)
         return;
       if (l.extra && !l.extra(ctx, e))
         return;
+      // "one fixed positive factor": a second set_up() of the same object for the same data (what an objective function that is
+      // set up twice, or a chain built around an object that was used alone before, does) must leave every efficiency what it was
+      if (ctx.rng.coin(0.35))
+        {
+          set_up(*l.norm, l.cls + " (second set_up)");
+          ctx.heartbeat("check " + l.cls + " after a second set_up");
+          const std::vector<float> e2 = check_norm(ctx, nut_for(l), w.L, w.exam, x);
+          if (e2.empty())
+            return;
+          for (size_t b = 0; b < e.size(); ++b)
+            if (!(e2[b] == e[b]))
+              {
+                ctx.violation(l.cls + ":efficiency-changes-after-a-second-set_up",
+                              vf::fmt("bin %zu: efficiency %.9g after the first set_up(), %.9g after the second", b, e[b], e2[b]));
+                return;
+              }
+          ctx.count("objects_checked_again_after_a_second_set_up");
+          ctx.count("objects_checked_again_after_a_second_set_up_" + l.cls);
+        }
       nonconstant = !l.constant && *std::min_element(e.begin(), e.end()) != *std::max_element(e.begin(), e.end());
       ctx.count("objects_" + l.cls);
     }
